@@ -28,6 +28,12 @@ var currentImplements = ""
 
 func NewJavaAPIListener(jIdentMap map[string]core_domain.CodeDataStruct, diMap map[string]string) *JavaAPIListener {
 	isSpringRestController = false
+	// state of the previous file must not leak into this one
+	hasEnterClass = false
+	hasEnterRestController = false
+	baseApiUrl = ""
+	requestBodyClass = ""
+	localVars = make(map[string]string)
 	currentClz = ""
 	currentPkg = ""
 	currentImplements = ""
